@@ -203,10 +203,16 @@ Definition c17_reply_ok (cap : nat) (prev_diag : option diag_info) (prev_raw : o
       if reply_accepted r then
         match now_diag with Some _ => true | None => false end &&
         c17_header_ok pdu now_diag &&
-        (* EXT_DIAG = bit 3 of byte 0; stored iff a buffer exists and the string fits *)
-        (if Z.testbit (nth 0 pdu 0) 3 && Nat.ltb 0 cap && Nat.leb (length pdu - 6) cap
-         then opt_bytes_eqb now_raw (Some (skipn 6 pdu))
-         else opt_bytes_eqb now_raw prev_raw)
+        (* "stored only if they fit": a string that does not fit (or no buffer) is never stored.
+           EXT_DIAG (bit 3 of byte 0) set: stored iff a buffer exists and the string fits.
+           EXT_DIAG clear: the property text does not say whether trailing bytes are recorded, so both
+           outcomes are accepted - unchanged (what the code does; the model theorems pin that down), or,
+           when the reply carries ext bytes and they fit, stored. *)
+        (let fits := Nat.ltb 0 cap && Nat.leb (length pdu - 6) cap in
+         if Z.testbit (nth 0 pdu 0) 3
+         then (if fits then opt_bytes_eqb now_raw (Some (skipn 6 pdu)) else opt_bytes_eqb now_raw prev_raw)
+         else opt_bytes_eqb now_raw prev_raw ||
+              (Nat.ltb 6 (length pdu) && fits && opt_bytes_eqb now_raw (Some (skipn 6 pdu))))
       else diag_eqb now_diag prev_diag && opt_bytes_eqb now_raw prev_raw
   | RShortConf => diag_eqb now_diag prev_diag && opt_bytes_eqb now_raw prev_raw
   end.
